@@ -24,7 +24,16 @@ def run(tier="quick", seed=0):
         why = None
         b = b""
         try:
-            p = SCPPacket(cmd_rc=rng.choice(edge16), seq=rng.choice(edge16), arg1=args[0], arg2=args[1], arg3=args[2], **f)
+            # (every fifth packet is built from numpy integers - 8-bit unsigned for the byte-wide fields, 32- or 64-bit for the
+            #  rest - as they come out of array code; `want` keeps the plain values the bytes are judged against)
+            f_given, args_given = f, args
+            if i % 5 == 4:
+                import numpy as np
+                wide = np.int64 if i % 2 else np.uint32
+                f_given = dict((k2, (np.uint8(v) if k2 in ("tag", "dest_x", "dest_y", "src_x", "src_y") else wide(v)) if isinstance(v, int) and not isinstance(v, bool) else v)
+                               for k2, v in f.items())
+                args_given = [None if a is None else wide(a) if a < 2 ** 31 else np.uint32(a) for a in args]
+            p = SCPPacket(cmd_rc=rng.choice(edge16), seq=rng.choice(edge16), arg1=args_given[0], arg2=args_given[1], arg3=args_given[2], **f_given)
             b = p.bytestring
             ev += 1
             import types
@@ -40,11 +49,21 @@ def run(tier="quick", seed=0):
                     ok = ok and S.ScpFromBytestring.ensures_takes_only_the_arguments_allowed_and_present(b[:cut], na, r2) \
                         and S.ScpFromBytestring.ensures_rest_is_payload(b[:cut], na, r2) and S.ScpFromBytestring.ensures_header(b[:cut], na, r2)
                     distinct.add((cut, na, k))
-            q = SDPPacket(**f)
+            q = SDPPacket(**f_given)
             ev += 1
             ok = ok and S.SdpBytestring.ensures_documented_layout(types.SimpleNamespace(**f), q.bytestring)
             r3 = SDPPacket.from_bytestring(q.bytestring)
             ok = ok and S.RoundtripSdp.ensures_equal_sdp_fields(q, r3) and r3.data == q.data
+            # a packet decoded out of a receive buffer is a value of its own: the buffer is reused for the next datagram
+            buf = bytearray(q.bytestring)
+            r4 = SDPPacket.from_bytestring(buf)
+            r5 = SCPPacket.from_bytestring(bytearray(b), n_args=k)
+            held = bytes(r4.data)
+            for j in range(len(buf)):
+                buf[j] = (buf[j] + 0x55) & 0xff
+            if bytes(r4.data) != held or bytes(r4.data) != bytes(q.data) or bytes(r5.data) != bytes(p.data):
+                ok = False
+                why = "the payload of a packet decoded from a bytearray changed when the buffer was overwritten afterwards"
         except Exception as e:      # noqa  (the real code raising, or a layout clause indexing past the bytes produced)
             ok, why = False, "%s: %s" % (type(e).__name__, e)
         if not ok:
@@ -53,6 +72,6 @@ def run(tier="quick", seed=0):
         if i < 2:
             samples.append({"packet": {k2: repr(v) for k2, v in f.items()}, "args": args, "bytes": b.hex()})
     return {"name": "c15_packets", "evaluations": ev, "distinct_nontrivial": len(distinct),
-            "rule": "%d seeded packets with boundary-valued fields, 0-3 arguments, payload lengths 0,1,3,4,11,12,40; every truncation 14..30 x n_args 0..3 decoded; contract text evaluated natively (non-trivial/distinct: (length, n_args, args present) triples)" % n,
+            "rule": "%d seeded packets with boundary-valued fields, 0-3 arguments, payload lengths 0,1,3,4,11,12,40; every truncation 14..30 x n_args 0..3 decoded; every fifth packet built from numpy integers; packets decoded from a bytearray that is overwritten afterwards keep their payload; contract text evaluated natively (non-trivial/distinct: (length, n_args, args present) triples)" % n,
             "bound": "%d packets" % n, "exhaustive": False, "label": "bounded", "samples": samples,
             "violations": viol[:5], "seconds": round(time.time() - t0, 2)}
